@@ -248,6 +248,13 @@ func (x *Executor) blanket(fr *Frame, st *State, callee *ssa.Function, args []Va
 		rule = "fail-point calls are no-ops"
 	case pkgPath == "fmt" && (strings.HasPrefix(key, "Sprint") || strings.HasPrefix(key, "Print") || key == "Errorf" || strings.HasPrefix(key, "Fprint")):
 		rule = "fmt formatting reads its arguments only"
+	case pkgPath == "sort" && (key == "Slice" || key == "SliceStable") && len(args) == 2 && args[0].Boxed != nil:
+		if sl, ok := args[0].Boxed.Ty.Underlying().(*types.Slice); ok {
+			x.permuteSlice(st, args[0].Boxed.T, sl.Elem())
+			u.trusted["sort.Slice permutes the elements of its slice and changes nothing else (the less function is assumed free of side effects)"] = true
+			return Val{T: "0", Ty: resTy}, true
+		}
+		return Val{}, false
 	case pkgPath == "runtime/debug" || (pkgPath == "runtime" && key == "Stack"):
 		rule = "runtime/debug stack dumps modify nothing that is modelled"
 	}
@@ -256,6 +263,19 @@ func (x *Executor) blanket(fr *Frame, st *State, callee *ssa.Function, args []Va
 	}
 	u.trusted["blanket rule: "+rule] = true
 	return x.freshResult(st, resTy, pkgPath == "fmt" && key == "Errorf"), true
+}
+
+// permuteSlice: the elements of slice s are replaced by a permutation of themselves.
+func (x *Executor) permuteSlice(st *State, s string, elem types.Type) {
+	u := x.u
+	comp, _ := u.elemComp(elem)
+	cur := x.heapGet(st, comp)
+	nw := x.heapHavoc(st, comp)
+	base, off, ln := "(s.base "+s+")", "(s.off "+s+")", "(s.len "+s+")"
+	u.assume(fmt.Sprintf("(forall ((r Int)) (! (=> (not (= r %s)) (= (select %s r) (select %s r))) :pattern ((select %s r))))", base, nw, cur, nw))
+	u.assume(fmt.Sprintf("(forall ((k Int)) (! (=> (or (< k %[1]s) (>= k (+ %[1]s %[2]s))) (= (select (select %[3]s %[5]s) k) (select (select %[4]s %[5]s) k))) :pattern ((select (select %[3]s %[5]s) k))))", off, ln, nw, cur, base))
+	u.assume(fmt.Sprintf("(forall ((i Int)) (! (=> (and (<= 0 i) (< i %[2]s)) (exists ((j Int)) (and (<= 0 j) (< j %[2]s) (= (select (select %[3]s %[5]s) (sidx %[1]s i)) (select (select %[4]s %[5]s) (sidx %[1]s j)))))) :pattern ((select (select %[3]s %[5]s) (sidx %[1]s i)))))", off, ln, nw, cur, base))
+	u.assume(fmt.Sprintf("(forall ((j Int)) (! (=> (and (<= 0 j) (< j %[2]s)) (exists ((i Int)) (and (<= 0 i) (< i %[2]s) (= (select (select %[3]s %[5]s) (sidx %[1]s i)) (select (select %[4]s %[5]s) (sidx %[1]s j)))))) :pattern ((select (select %[4]s %[5]s) (sidx %[1]s j)))))", off, ln, nw, cur, base))
 }
 
 func (x *Executor) freshResult(st *State, resTy types.Type, nonNilErr bool) Val {
